@@ -146,6 +146,7 @@ type parkedG struct {
 	Site string
 	Key  uint64
 	Hit  int
+	Gid  uint64 // goroutine id of the parked goroutine
 	ch   chan struct{}
 }
 
@@ -321,6 +322,7 @@ func (e *Env) yieldHook(site string, key uint64) {
 	}
 	e.mu.Unlock()
 	if park {
+		pg.Gid = goid()
 		<-pg.ch
 	}
 }
